@@ -41,3 +41,30 @@ Definition a_unchecked_align_up (m : mode) (a p : N) : outcome N :=
 (* #[derive(Eq, PartialEq, Ord, PartialOrd)] on a one-field tuple struct *)
 Definition a_cmp (a b : N) : N := if a <? b then 0 else if a =? b then 1 else 2.
 Definition a_eq (a b : N) : bool := a =? b.
+
+(* ---- added (w4): the rest of the derived / provided comparison surface of the two newtypes.
+   #[derive(PartialOrd)] on a one-field tuple struct: partial_cmp(&self, other) =
+   PartialOrd::partial_cmp(&self.0, &other.0), which for u64 is Some(self.0.cmp(&other.0)).
+   Ordering is coded 0 Less, 1 Equal, 2 Greater as in a_cmp. *)
+Definition a_partial_cmp (a b : N) : option N := Some (a_cmp a b).
+(* core::cmp::PartialOrd provided methods (the derive only writes partial_cmp):
+     fn lt(&self, other) -> bool { matches!(self.partial_cmp(other), Some(Less)) }
+     fn le(&self, other) -> bool { matches!(self.partial_cmp(other), Some(Less | Equal)) }
+     fn gt(&self, other) -> bool { matches!(self.partial_cmp(other), Some(Greater)) }
+     fn ge(&self, other) -> bool { matches!(self.partial_cmp(other), Some(Greater | Equal)) } *)
+Definition a_lt (a b : N) : bool := match a_partial_cmp a b with Some 0 => true | _ => false end.
+Definition a_le (a b : N) : bool := match a_partial_cmp a b with Some 0 | Some 1 => true | _ => false end.
+Definition a_gt (a b : N) : bool := match a_partial_cmp a b with Some 2 => true | _ => false end.
+Definition a_ge (a b : N) : bool := match a_partial_cmp a b with Some 1 | Some 2 => true | _ => false end.
+(* core::cmp::PartialEq provided: fn ne(&self, other) -> bool { !self.eq(other) } *)
+Definition a_ne (a b : N) : bool := negb (a_eq a b).
+(* core::cmp::Ord provided methods (the derive only writes cmp):
+     fn max(self, other) -> Self { max_by(self, other, Ord::cmp) }   = match cmp { Greater => self, _ => other }
+     fn min(self, other) -> Self { min_by(self, other, Ord::cmp) }   = match cmp { Greater => other, _ => self }
+     fn clamp(self, min, max) -> Self { assert!(min <= max);
+         if self < min { min } else if self > max { max } else { self } } *)
+Definition a_max (a b : N) : N := match a_cmp a b with 2 => a | _ => b end.
+Definition a_min (a b : N) : N := match a_cmp a b with 2 => b | _ => a end.
+Definition a_clamp (a lo hi : N) : outcome N :=
+  let* _ := passert 1 (a_le lo hi) in
+  Val (if a_lt a lo then lo else if a_gt a hi then hi else a).
